@@ -198,28 +198,21 @@ def trace_sig(t, bad, l):
             "op_class": _op_class(f["op"]), "obs_closed": bad["obs"]["closed"], "obs_1009": bad["obs"]["sent1009"]}
 
 
-def coverage_names(out):
-    """Per-action totals from TLC's -coverage output (also the entries carrying a sub-location
-    suffix, which harness.tlc's pattern skips)."""
-    import re
-    cov = {}
-    for m in re.finditer(r"^<(\w+) line \d+, col \d+ to line \d+, col \d+ of module \w+(?: \([\d ]+\))?>: (\d+):(\d+)", out, re.M):
-        cov[m.group(1)] = cov.get(m.group(1), 0) + int(m.group(3))
-    return cov
+def _mc(ctx, *a, **kw):
+    """ctx.mc, skippable with WS_DEV_SKIP_MC=1 (development only: seeded-edit runs, where the
+    specification-level model checking is unaffected by the edit)."""
+    if os.environ.get("WS_DEV_SKIP_MC") == "1":
+        return None
+    return ctx.mc(*a, **kw)
 
 
 def run(ctx):
     c = cat()
     os.environ["WS_CATALOG"] = c.write(os.path.join(ctx.scratch, "catalog.ndjson"))
     t0 = time.time()
-    r = ctx.mc("ws", "MC_WsReceiver", "MC_WsReceiver.cfg", env={"WS_CATALOG": os.environ["WS_CATALOG"]},
+    r = _mc(ctx, "ws", "MC_WsReceiver", "MC_WsReceiver.cfg", env={"WS_CATALOG": os.environ["WS_CATALOG"]},
                overrides=ctx.pick({}, {"MaxDelivered": 3, "PieceKinds": '{"zero", "one", "half"}'}),
-               required_actions=["SendData", "SendClose", "SendAfter"])
-    cov = coverage_names(r.out)
-    for a in ("SendPing", "SendPong", "SendViolation"):
-        if not cov.get(a):
-            raise framework.Machinery("vacuity: action %s of WsReceiver never taken" % a)
-        ctx.cov["coverage_by_action"]["MC_WsReceiver." + a] = cov[a]
+               required_actions=["SendData", "SendPing", "SendPong", "SendClose", "SendViolation", "SendAfter"])
     ctx._phase("mc", t0)
     t0 = time.time()
     paths = ctx.gen_paths("ws", "Gen_WsReceiver", "Gen_WsReceiver.cfg",
